@@ -26,6 +26,7 @@ class Audit(object):
         self.reached = set()
         self.entries = []
         self.unmodelled = {}
+        self.unmodelled_info = {}
         self.outcomes = {}    # entry -> [(kind, why, site)]
         self.fns_entered = set()
         self.steps = 0
@@ -164,6 +165,7 @@ def run_audit(F, only=None):
         A.steps += I.total_steps
         for k2, n in I.unmodelled.items():
             A.unmodelled[k2] = A.unmodelled.get(k2, 0) + n
+        A.unmodelled_info.update(I.unmodelled_info)
         for (dk, _), gargs in I.deferred.items():
             todo.append((dk, gargs))
     A.wall = time.time() - t0
